@@ -221,8 +221,37 @@ func (p C07) Run(c *sim.Ctx, t *sim.Tape) sim.RunResult {
 	res := sim.RunResult{}
 	okMut := 0
 
+	// a third of the histories stay with one directory and one handle on it: listing it in batches by both
+	// methods while its entries come and go.
+	dirFocus := t.Chance(330)
+	focusDir := []string{"/a", "/a/d", "/b"}[t.Int(3)]
+
 	for i := 0; i < 25 && (i < 3 || t.Chance(880)); i++ {
 		o := advOp(t, kind, fmt.Sprintf("<%d>", i))
+
+		if dirFocus {
+			switch {
+			case i == 0:
+				o = fsx.Op{K: "Open", P: focusDir, H: 0}
+			default:
+				entry := focusDir + "/" + []string{"f", "d", "x", "y", "g", "k", "h"}[t.Int(7)]
+
+				switch t.Int(10) {
+				case 0, 1, 2:
+					o = fsx.Op{K: "FReadDir", H: 0, N: []int{1, 2, -1, 0, 100}[t.Int(5)]}
+				case 3, 4, 5:
+					o = fsx.Op{K: "FReaddirnames", H: 0, N: []int{1, 2, -1, 0, 100}[t.Int(5)]}
+				case 6:
+					o = fsx.Op{K: "Remove", P: entry}
+				case 7:
+					o = fsx.Op{K: "WriteFile", P: entry, Data: "z", Perm: 0o644}
+				case 8:
+					o = fsx.Op{K: []string{"RemoveAll", "Mkdir", "Rename"}[t.Int(3)], P: entry, Q: focusDir + "/r", Perm: 0o755}
+				default:
+					o = fsx.Op{K: []string{"FStat", "FSeek", "Open", "FClose"}[t.Int(4)], P: focusDir, H: 0}
+				}
+			}
+		}
 
 		var out string
 
